@@ -301,7 +301,7 @@ private:
             palette_size = std::size_t( 1 ) << this->_info._bits_per_pixel;
         }
 
-        this->_palette.resize( palette_size, rgba8_pixel_t(0,0,0,0) );
+        this->_palette.resize( palette_size, rgba8_pixel_t(0, 0, 0, 255) );
 
         for( int i = 0; i < entries; ++i )
         {
